@@ -100,6 +100,10 @@ struct Member
 };
 
 static char *g_stack_pool = nullptr;
+#ifdef SIM_ASAN
+static const void *g_main_stack_bottom = nullptr;
+static size_t g_main_stack_size = 0;
+#endif
 static Member g_members[MAXT];
 
 // ---------------------------------------------------------------------------------------------
@@ -768,7 +772,7 @@ static void yield_to(int next)
     Member *m = g_cur;
     g_next = next;
 #ifdef SIM_ASAN
-    __sanitizer_start_switch_fiber(&m->fake_stack, nullptr, 0); // bottom/size filled by scheduler side
+    __sanitizer_start_switch_fiber(&m->fake_stack, g_main_stack_bottom, g_main_stack_size);
 #endif
     sim_ctx_switch(&m->sp, g_sched_sp);
 #ifdef SIM_ASAN
@@ -924,14 +928,15 @@ static void prepare_fiber(Member *m)
 static void member_trampoline()
 {
 #ifdef SIM_ASAN
-    __sanitizer_finish_switch_fiber(nullptr, nullptr, nullptr);
+    // first entry of this fiber: learn the bounds of the stack we came from (the encountering thread)
+    __sanitizer_finish_switch_fiber(nullptr, &g_main_stack_bottom, &g_main_stack_size);
 #endif
     Member *m = g_cur;
     g_fn(g_data);
     m->st = M_DONE;
     g_next = -1;
 #ifdef SIM_ASAN
-    __sanitizer_start_switch_fiber(nullptr, nullptr, 0); // fiber is finished: release its fake stack
+    __sanitizer_start_switch_fiber(nullptr, g_main_stack_bottom, g_main_stack_size); // fiber is finished: release its fake stack
 #endif
     sim_ctx_switch(&m->sp, g_sched_sp);
     fatal("finished fiber resumed");
